@@ -82,6 +82,12 @@ class DataLoggerRun:
         self._set(DCM.DataCollection, "WRITE_PERIOD", self.write_period)
         self.tmp = tempfile.mkdtemp(prefix="verif_dl_", dir=_scratch())
         md = LoggingMetadata()
+        if ch.flag("cfg.tc_client_in_process", 1, 4):
+            # the process also holds a (not connected) client of a time-code system; the recorder itself works with
+            # plain headers throughout
+            import pyrtma
+            self.other_client = pyrtma.Client(module_id=0, timecode=True)
+            self.res.probes["timecode_client_in_process"] += 1
         self.dc = DCM.DataCollection("coll", self.tmp, "run", md, use_thread=True)
         fm = {"raw": RawFormatter, "json": JsonFormatter, "quicklogger": QLFormatter, "msg_header": MsgHeaderFormatter}
         nds = 1 + ch.pick("cfg.nds", 3)
